@@ -442,6 +442,10 @@ func runC07(c *Ctx, r *Report) {
 		}
 	}
 
+	r.Doc("R-C07.7", "under a link key Verify signs Entry.Copy(): the copy reproduces every signed field from the same field of the original and from nothing else (no state shared between the predecessor and reference lists)")
+	entryCopyFieldwise(c, r, "R-C07.7")
+	r.Doc("R-C07.8", "the clock reaches the signed copy as it is: the constructor stores its arguments unchanged, the copy takes both parts, the getters return their field")
+	clockValueObject(c, r, "R-C07.8")
 	verifySigDominates(c, r, "R-C07.4")
 	// ---- R-C07.6: verification keeps nothing between calls
 	r.Doc("R-C07.6", "the verification closure (Verify, the signed-bytes builders, key parsing in the identity provider, the keystore's check) keeps no state between calls: a remembered verdict or a remembered parsed key lets a later, different input be checked against the earlier one")
